@@ -307,6 +307,30 @@ def build_val(sh, terms, islist=False):
     return leaf_val(sh, terms[0])
 
 
+_MEMO = {}
+SCOPE = []   # specification variables (z3 constants) bound by the quantifiers currently being evaluated
+DEFS = []    # (symbol name, definitional axiom) of the computed sequences created so far
+
+
+def occurs(v, t):
+    seen = set()
+    stack = [t]
+    vid = v.get_id()
+    while stack:
+        u = stack.pop()
+        i = u.get_id()
+        if i == vid:
+            return True
+        if i in seen:
+            continue
+        seen.add(i)
+        if z3.is_app(u):
+            stack.extend(u.children())
+        elif z3.is_quantifier(u):
+            stack.append(u.body())
+    return False
+
+
 class Seq(Val):
     """list / 1-D array / n x k array: length n, offset off, one z3 array per leaf."""
     __slots__ = ("n", "off", "arrs", "esh", "kind", "root")
@@ -355,10 +379,34 @@ class Seq(Val):
 
     @staticmethod
     def from_fn(n, esh, fn, kind="array"):
-        """sequence whose element k is fn(k) (a Val); arrays are z3 lambdas."""
+        """sequence whose element k is fn(k) (a Val).  No z3 lambdas: every leaf array is a fresh
+        symbol A (a function of the specification variables currently in scope, if they occur) with the
+        definitional axiom  forall scope, k. A(scope)[k] == term  recorded in DEFS (conservative extension)."""
         k = z3.Int(fresh_name("k"))
         ts = flatten_val(esh, fn(k))
-        return Seq(n, z3.IntVal(0), [z3.Lambda([k], t) for t in ts], esh, kind)
+        arrs = []
+        for t in ts:
+            fvs = [v for v in SCOPE if occurs(v, t)]
+            asort = z3.ArraySort(z3.IntSort(), t.sort())
+            # the same defining term (up to renaming of k and of the scope variables) gets the same symbol,
+            # so that a specification evaluated twice (hypothesis / goal) denotes the same sequence
+            canon = [(k, z3.Int("k!canon"))] + [(v, z3.Const("v!canon%d" % i, v.sort())) for i, v in enumerate(fvs)]
+            key = (z3.substitute(t, *canon).sexpr(), tuple(str(v.sort()) for v in fvs))
+            if key in _MEMO:
+                nm, f = _MEMO[key]
+                arr = f(*fvs) if fvs else f
+            else:
+                nm = fresh_name("arr")
+                if fvs:
+                    f = z3.Function(nm, *([v.sort() for v in fvs] + [asort]))
+                    arr = f(*fvs)
+                else:
+                    f = arr = z3.Const(nm, asort)
+                _MEMO[key] = (nm, f)
+                sel = z3.Select(arr, k)
+                DEFS.append((nm, z3.ForAll(fvs + [k], sel == t, patterns=[sel])))
+            arrs.append(arr)
+        return Seq(n, z3.IntVal(0), arrs, esh, kind)
 
     def key(self):
         """terms identifying the contents (for uninterpreted functions of a slice)."""
